@@ -57,6 +57,7 @@ type ArmLoop struct {
 	InBody    map[*ssa.BasicBlock]bool
 	Ops       map[*ssa.BasicBlock]opset
 	Effects   map[*ssa.BasicBlock][]Effect
+	feas      map[int]map[cfgEdge]bool // per operation constant: the feasible edges of Fn
 }
 
 // FindArmLoops finds every `for r.Next()` loop over a commit.Reader in fn.
@@ -146,37 +147,34 @@ func typeTest(cond ssa.Value) (k int, eq bool, ok bool) {
 	return int(c), bo.Op == token.EQL, true
 }
 
+// computeOps: for every operation constant the edges of the function that are feasible when
+// Reader.Type has that value (deep.go: conditions are evaluated through negations, named booleans,
+// short-circuit φ-nodes and boolean helpers, so `switch`, `if` chains, `a || b`, early `continue`
+// and `ok := r.IsUpsert() && rule(r)` all refine the same way); a block of the body executes under
+// op when it is reachable from the body entry along such edges.
 func (a *ArmLoop) computeOps() {
-	a.Ops[a.BodyEntry] = opAll
-	for changed := true; changed; {
-		changed = false
-		for b := range a.InBody {
-			in := a.Ops[b]
-			if in == 0 {
-				continue
+	a.feas = map[int]map[cfgEdge]bool{}
+	for op := 0; op <= opOther; op++ {
+		op := op
+		_, feas := feasibleUnder(a.Fn, func(v ssa.Value) (bool, bool) {
+			if k, eq, ok := typeTest(v); ok {
+				return (k == op) == eq, true
 			}
-			outs := make([]opset, len(b.Succs))
-			for i := range outs {
-				outs[i] = in
-			}
-			if iff, ok := b.Instrs[len(b.Instrs)-1].(*ssa.If); ok {
-				if k, eq, ok := typeTest(iff.Cond); ok {
-					only, rest := in&(1<<uint(k)), in&^(1<<uint(k))
-					if eq {
-						outs[0], outs[1] = only, rest
-					} else {
-						outs[0], outs[1] = rest, only
-					}
-				}
-			}
-			for i, s := range b.Succs {
-				if !a.InBody[s] {
+			return false, false
+		})
+		a.feas[op] = feas
+		seen := map[*ssa.BasicBlock]bool{a.BodyEntry: true}
+		work := []*ssa.BasicBlock{a.BodyEntry}
+		for len(work) > 0 {
+			b := work[len(work)-1]
+			work = work[:len(work)-1]
+			a.Ops[b] |= 1 << uint(op)
+			for _, s := range b.Succs {
+				if !a.InBody[s] || seen[s] || !feas[cfgEdge{b, s}] {
 					continue
 				}
-				if n := a.Ops[s] | outs[i]; n != a.Ops[s] {
-					a.Ops[s] = n
-					changed = true
-				}
+				seen[s] = true
+				work = append(work, s)
 			}
 		}
 	}
@@ -457,16 +455,10 @@ func (a *ArmLoop) Must(op int, kinds ...string) bool {
 func (a *ArmLoop) edgeOps(b *ssa.BasicBlock) []opset {
 	in := a.Ops[b]
 	outs := make([]opset, len(b.Succs))
-	for i := range outs {
-		outs[i] = in
-	}
-	if iff, ok := b.Instrs[len(b.Instrs)-1].(*ssa.If); ok {
-		if k, eq, ok := typeTest(iff.Cond); ok {
-			only, rest := in&(1<<uint(k)), in&^(1<<uint(k))
-			if eq {
-				outs[0], outs[1] = only, rest
-			} else {
-				outs[0], outs[1] = rest, only
+	for i, s := range b.Succs {
+		for op := 0; op <= opOther; op++ {
+			if in.has(op) && a.feas[op][cfgEdge{b, s}] {
+				outs[i] |= 1 << uint(op)
 			}
 		}
 	}
